@@ -75,6 +75,12 @@ def run(e: Engine, rep: Report):
              'reverse-path stored in have_mailfrom lets AUTH run inside a '
              'transaction)')
     c07.r78(e, rep, 'R8.11')
+    rep.rule('R8.12', 'the challenge-response history handed to the SASL '
+             'mechanism belongs to one AUTH command: a local list created '
+             'in server_attempt, or object state emptied on every path '
+             'before the first use (responses of a cancelled attempt are '
+             'not credentials of the next one)')
+    r812(e, rep)
     rep.floor('R8.1', 1, 'socket swap sites')
 
 
@@ -925,3 +931,70 @@ def r810(e: Engine, rep: Report, rule: str = 'R8.10'):
                       'handshake) is still advertised' % (
                           m.name, attr, dm.name), loc=m.loc(),
                       reason='assigned on every path')
+
+
+# ------------------------------------------------------------------ R8.12
+def r812(e: Engine, rep: Report):
+    ctx = e.method_ctx(AUTHS, 'server_attempt')
+    g = e.build(ctx, inline=e.inline_same_self(), max_depth=3,
+                raises=lambda b, n, r: set())
+    where = ctx.func.qname
+    rep.functions.add(where)
+    sites = [c for c in g.calls() if e.call_name(c) == 'server_attempt' and
+             c.frame.ctx.func.qname.startswith(AUTHS) and c.ast.args]
+    if not sites:
+        rep.unknown('R8.12', where, 'history handed to the mechanism',
+                    'no mechanism.server_attempt(<responses>) call found',
+                    loc=ctx.func.loc())
+        return
+
+    def empty(v):
+        return (isinstance(v, (ast.List, ast.Tuple)) and not v.elts) or (
+            isinstance(v, ast.Call) and isinstance(v.func, ast.Name) and
+            v.func.id in ('list', 'deque') and not v.args)
+    for c in sites:
+        rep.evaluations += 1
+        a, fr = common.deref(c.ast.args[0], c.frame)
+        what = 'history `%s` handed to the mechanism' % ast.unparse(a)
+        if isinstance(a, ast.Name):
+            fn = fr.ctx.func
+            defs = [x for x in walk_own(fn.node) if isinstance(x, ast.Assign)
+                    and any(isinstance(t, ast.Name) and t.id == a.id
+                            for t in x.targets)]
+            if defs and all(empty(d.value) for d in defs) and \
+                    a.id not in fn.params:
+                rep.ok('R8.12', where, what, loc=c.loc(),
+                       reason='local list created in this attempt')
+            else:
+                rep.unknown('R8.12', where, what, 'cannot see that `%s` '
+                            'starts empty in this attempt' % a.id,
+                            loc=c.loc())
+            continue
+        p = path_of(a, fr) if isinstance(a, ast.Attribute) else None
+        if p is None or not p.startswith('self.'):
+            rep.unknown('R8.12', where, what, 'cannot read where the '
+                        'history is kept', loc=c.loc())
+            continue
+
+        def step(n, label, st):
+            if isinstance(label, tuple):
+                return st
+            if n.kind == 'stmt' and isinstance(n.ast, ast.Assign) and any(
+                    path_of(t, n.frame) == p for t in n.ast.targets):
+                return empty(n.ast.value)
+            if n.kind == 'call' and isinstance(n.ast.func, ast.Attribute) \
+                    and n.ast.func.attr == 'clear' and \
+                    path_of(n.ast.func.value, n.frame) == p:
+                return True
+            return st
+        w = dataflow.typestate_witness(
+            g, False, step, lambda n, st: n is c and not st)
+        rep.check(w is None, 'R8.12', where, what,
+                  'the history is kept in `%s`, which lives as long as the '
+                  'session, and is not emptied on every path from the start '
+                  'of server_attempt to this call: what a cancelled or '
+                  'failed AUTH left there is evaluated as responses of the '
+                  'next AUTH - the application sees credentials the client '
+                  'did not supply' % p, loc=c.loc(),
+                  reason='emptied before the first use',
+                  witness=dataflow.render_path(w, 12) if w else None)
